@@ -423,17 +423,18 @@ class Labeller(object):
 
     def schedule(self, execution=None):
         """the schedule in the model's terms (events by publication ordinal); None if something has no counterpart.  The run
-        is given up to its last crash and on to the handler that ended `execution` (after a failure the order in which late
-        replies and back-off timers come decides how it ends), the whole run if it did not end; from there the model runs
-        by itself.  It also ends where, after the last crash, a timer runs that the model does not have (the retention of
-        an orphaned reply running out …)."""
-        last = -1
-        for i, op in enumerate(self.sched):
-            if op[0] == "crash" or op[2] is not None:
-                last = i
+        is given up to the handler that ended `execution` (after a failure the order in which late replies and back-off
+        timers come decides how it ends; what the engine does with the leftovers of an execution that has ended, across
+        further crashes, is not C04's subject), the whole run if it did not end; from there the model runs by itself.  It
+        also ends where, after the last crash, a timer runs that the model does not have (the retention of an orphaned
+        reply running out …)."""
         sched = self.sched
         if execution is not None and execution in self.ended:
-            sched = sched[:max(last + 1, self.ended[execution])]
+            sched = sched[:self.ended[execution]]
+        last = -1
+        for i, op in enumerate(sched):
+            if op[0] == "crash" or op[2] is not None:
+                last = i
         for i, op in enumerate(sched):
             if op[0] == "?" and i > last:
                 sched = sched[:i]
